@@ -99,6 +99,15 @@ CLAIMED = {
          "derivation graphs over up to 3 modules with multiple bases, equal names and arbitrary prefixes, compared with an independently computed "
          "closure, four runs each for order determinism, identityref leaves checked, undefined bases and cycles must be errors."),
    ref="8 (C11)"),
+ "C05": dict(
+   text=("Deductive proof that the comparison used to sort error lists is order-independent: nless equals the spec nl (numbers by value, a number before "
+         "other text, text lexicographically), nl is a total preorder (antisymmetry, transitivity, reflexivity as machine-checked lemmas), "
+         "sortedErrors.Less equals the field-wise order lessE for every pair of texts (loop invariant over the split fields), and lessE is irreflexive, "
+         "asymmetric and transitive (lemmas). The hyperproperty itself -- same outcome across runs and load orders -- is a bounded stand-in (labelled): "
+         "5 module sets with types, identities, augments, deviations and several errors, all load orders x 3 repetitions, exact comparison of the error "
+         "list or of a complete rendering. Assumed: sort.Sort, strings.SplitN, strconv.Atoi. Not decided: errorSort's duplicate removal, the 37 map-range "
+         "loops as commutation obligations."),
+   ref="8 (C05)"),
 }
 
 NOT_REACHED = {}
